@@ -17,6 +17,7 @@ package main
 
 import (
 	"fmt"
+	"runtime"
 	"sort"
 	"strconv"
 	"strings"
@@ -64,10 +65,10 @@ func (c *vclock) waitChan(n int64) bool {
 		if time.Now().After(deadline) {
 			return false
 		}
-		if i < 200 {
-			time.Sleep(time.Microsecond)
+		if i < 2000 {
+			runtime.Gosched()
 		} else {
-			time.Sleep(50 * time.Microsecond)
+			time.Sleep(20 * time.Microsecond)
 		}
 	}
 	return true
